@@ -6,7 +6,8 @@
          (v1: carried row index) and core.read_data_page_v2 (slice, prev_i = 0). *)
 From Coq Require Import NArith List Bool.
 From Pq Require Import Format.Nested Impl.CAssemble Proofs.NestedProofs Proofs.CAssembleProofs
-  Proofs.CAssemblePagesProofs Proofs.NestedMapProofs Proofs.NestedInvProofs.
+  Proofs.CAssemblePagesProofs Proofs.NestedMapProofs Proofs.NestedInvProofs
+  Proofs.CAssembleTightProofs.
 Import ListNotations.
 Open Scope N_scope.
 
@@ -46,6 +47,21 @@ Theorem C15_pages_partial :
     run_v1 sh (length rows) pages = AOk rows.
 Proof. exact pages_v1_spec. Qed.
 Print Assumptions C15_pages_partial.
+
+(* the guard is exact: for every accepted stream cut into non-empty aligned v1 pages, the model of
+   today's code returns the rows IF AND ONLY IF the cut satisfies good_split.  Outside the guard
+   the result is never the rows (wrong rows, or a fault: slot k of a row whose continued part held
+   no value keeps its shorter list; after a continuation-only page the carried row index is one
+   too high and the read cannot end inside the array).  This is the precise extent of the two
+   open .pyx findings. *)
+Theorem C15_pages_exact :
+  forall (V : Type) (sh : shape) (es : list entry) (vs : list V) (rows : list (row V)) (pages : list (page V)),
+    assemble_spec sh es vs = Some rows ->
+    pages_stream pages = (es, vs) ->
+    pages_aligned sh pages = true -> nonempty_b pages = true ->
+    (run_v1 sh (length rows) pages = AOk rows <-> good_split sh pages = true).
+Proof. exact pages_v1_iff. Qed.
+Print Assumptions C15_pages_exact.
 
 (* the same for the rows a writer shredded (C15_assemble_shred + C15_pages_partial) *)
 Theorem C15_pages_rows_partial :
